@@ -36,6 +36,9 @@ type minimiser struct {
 	budget   int
 	execs    int
 	deadline time.Time
+	// check, if set, decides whether a candidate still fails (fresh-process minimisation);
+	// otherwise candidates are executed in this process
+	check func(cs []runCase) bool
 }
 
 func (m *minimiser) fails(cs []runCase) bool {
@@ -48,6 +51,9 @@ func (m *minimiser) fails(cs []runCase) bool {
 	}
 	m.budget--
 	m.execs++
+	if m.check != nil {
+		return m.check(cs)
+	}
 	f, _, _ := runCases(cs, m.refs, m.cls, false)
 	return f != nil
 }
@@ -243,7 +249,7 @@ func (m *minimiser) size(cs []runCase) int {
 func mergeSegs(segs []Segment) []Segment {
 	var out []Segment
 	for _, s := range segs {
-		if n := len(out); n > 0 && out[n-1].Task == s.Task {
+		if n := len(out); n > 0 && out[n-1].Task == s.Task && out[n-1].Op < 0 && s.Op < 0 {
 			out[n-1].N += s.N
 			if out[n-1].N < 0 || out[n-1].N > 1<<60 {
 				out[n-1].N = 1 << 60
@@ -262,7 +268,7 @@ func dropTask(c *runCase, t int) {
 		switch {
 		case s.Task == t:
 		case s.Task > t:
-			segs = append(segs, Segment{Task: s.Task - 1, N: s.N})
+			segs = append(segs, Segment{Task: s.Task - 1, N: s.N, Op: s.Op})
 		default:
 			segs = append(segs, s)
 		}
